@@ -307,7 +307,8 @@ def has_glob_links(case):
 
 
 def known_key(case, exp, m):
-    rp, cls, path, detail = m
+    rp, cls, path, detail = m[:4]
+    info = m[4] if len(m) > 4 else {}
     opts = case.get("opts", {})
     n = exp.get(path.encode("latin-1")) if (exp and path) else None
     tags = n.tags if n is not None else set()
@@ -327,10 +328,8 @@ def known_key(case, exp, m):
         fu, fg = G.forced_ids(opts)
         if (cls == "uid" and fu is not None) or (cls == "gid" and fg is not None):
             return K_FORCEID
-    if cls == "xattrs" and "empty-xattr-from-fs" in tags and opts.get("x"):
-        parts = detail.replace("unpacked: ", "").split("; ")
-        if all(p.startswith("missing ") and p.endswith("(0 bytes)") for p in parts):
-            return K_EMPTYX
+    if cls == "xattrs" and "empty-xattr-from-fs" in tags and opts.get("x") and info.get("only_missing_empty"):
+        return K_EMPTYX
     if cls in ("xattr-dump", "xattr-dump-nul") and "empty-xattr-from-fs" in tags and opts.get("x"):
         return K_EMPTYX
     if cls == "xattr-dump-nul":
